@@ -91,9 +91,11 @@ def run(ctx):
 
         def rebuild(items):
             res = []
-            for it in items:
+            every = max(1, len(items) // 12)        # long histories: dump sparsely while shrinking
+            for n, it in enumerate(items):
                 res.append(it)
-                res.append(("dump",))
+                if n % every == 0 or n == len(items) - 1 or it[0] == "crash":
+                    res.append(("dump",))
             return res
 
         def fails(items):
